@@ -4,6 +4,7 @@ from harness.gen import scenarios
 
 ID = "C08"
 PROP_FILE = "C08.v"
+SOFT_PINS = "core"
 TRANSLATORS = ["unicode_tables", "tables"]
 RULE = ("70% directed smart-sleep scenarios (harness/gen/scenarios.sleep_history: nodes whose presented version is never "
         "presented / 1.4 / 1.5.1 / = gateway / 2.3 on a 2.0, 2.1 or 2.2 gateway; value reports incl. types 2, 3, 22, 23, 47; "
